@@ -100,6 +100,7 @@ def run(idx: ProgramIndex, rep: Report, tier: str):
     override_coverage(idx, rep)
     mll_scaling(idx, rep)
     covariance_consumes(idx, rep)
+    added_terms_masked(idx, rep, consumers)
     rep.rule("C16-7", "the NaN entries that record which observations are missing survive every consumer: no in-place update of cached tensors, object-owned tensors or the caller's targets (storage/version domain)")
     from .common_alias import aliasing_obligations
     aliasing_obligations(idx, rep, "C16-7", sorted(consumers, key=lambda f: (f.module.name, f.qualname)), 5, "policy consumers interpreted for in-place updates")
@@ -374,3 +375,68 @@ def mask_layout(idx: ProgramIndex, rep: Report, consumers):
                     "the layout flag is consulted" if consults else
                     "the (.., n, t) mask is flattened point-major and applied to `%s.lazy_covariance_matrix` without looking at _interleaved: for a non-interleaved multitask distribution (task-major covariance) other entries than the missing ones are removed" % dist, {})
     rep.floor("C16-8", "masks flattened onto a distribution's covariance", n, 3)
+
+
+# ---- C16-9: data-sized terms added to a masked objective are masked too ---------------------------------------------------------
+def added_terms_masked(idx: ProgramIndex, rep: Report, consumers):
+    """An objective that removes the missing observations from the marginal (mask branch) and then adds terms that kernels build from
+    the training inputs of the same call (AddedLossTerm objects constructed inside a Kernel method, whose loss() reduces over the data
+    dimension) has to restrict those terms with the same mask - otherwise the missing points still contribute.  Decided structurally:
+    the call that fetches `added_loss_term.loss(...)` on the mask path must receive something derived from the mask."""
+    rep.rule("C16-9", "data-sized added loss terms built by kernels from the training inputs are restricted by the same mask as the marginal")
+    kernel = idx.cls(idx.package + ".kernels.kernel", "Kernel")
+    alt = idx.cls(idx.package + ".mlls.added_loss_term", "AddedLossTerm")
+    data_terms = []
+    for cls in idx.package_classes():
+        if cls is alt or not cls.is_subclass_of(alt):
+            continue
+        loss = cls.lookup("loss")
+        if loss is None:
+            continue
+        reduces = [c for c in calls_in(loss.node) if isinstance(c.func, ast.Attribute) and c.func.attr in ("sum", "mean", "logsumexp")]
+        if not reduces:
+            continue
+        for fi in idx.all_functions():
+            if fi.cls is None or not fi.cls.is_subclass_of(kernel):
+                continue
+            for c in calls_in(fi.node):
+                if (chain(c.func) or "").split(".")[-1] == cls.name:
+                    inputs = {p for p in fi.params[1:3]}
+                    if any(isinstance(x, ast.Name) and x.id in inputs for a in list(c.args) + [k.value for k in c.keywords] for x in ast.walk(a)):
+                        data_terms.append((cls, fi, c))
+    n = 0
+    for fi in consumers:
+        if fi.cls is None or fi.name != "forward" or not any("MarginalLogLikelihood" in b.name for b in fi.cls.mro() if hasattr(b, "name")):
+            continue
+        br, has_else, ifs = policy_branches(fi)
+        if "mask" not in br:
+            continue
+        masks = {a.targets[0].id for a in ast.walk(fi.node) if isinstance(a, ast.Assign) and len(a.targets) == 1 and isinstance(a.targets[0], ast.Name)
+                 and isinstance(a.value, ast.Call) and isinstance(a.value.func, ast.Attribute) and a.value.func.attr == "_get_observed"}
+        # calls of own helpers / loss() after the mask branch
+        sites = []
+        for c in calls_in(fi.node):
+            if isinstance(c.func, ast.Attribute) and c.func.attr == "loss":
+                sites.append((fi, c, None))
+            elif isinstance(c.func, ast.Attribute) and chain(c.func.value) == "self":
+                callee = fi.cls.lookup(c.func.attr)
+                if callee is not None:
+                    for c2 in calls_in(callee.node):
+                        if isinstance(c2.func, ast.Attribute) and c2.func.attr == "loss":
+                            sites.append((callee, c2, c))
+        for holder, lc, via in sites:
+            if via is None:
+                gets = any(isinstance(x, ast.Name) and x.id in masks for a in list(lc.args) + [k.value for k in lc.keywords] for x in ast.walk(a))
+            else:
+                passed = [i for i, a in enumerate(via.args) if any(isinstance(x, ast.Name) and x.id in masks for x in ast.walk(a))]
+                pnames = {holder.params[1:][i] for i in passed if i < len(holder.params) - 1}
+                pnames |= {k.arg for k in via.keywords if any(isinstance(x, ast.Name) and x.id in masks for x in ast.walk(k.value))}
+                gets = any(isinstance(x, ast.Name) and x.id in pnames for a in list(lc.args) + [k.value for k in lc.keywords] for x in ast.walk(a))
+            for cls, kfi, kc in data_terms:
+                n += 1
+                inst = "%s:%s[mask] -> %s.loss" % (fi.module.name, fi.qualname, cls.name)
+                rep.add("C16-9", inst, "%s:%d" % (holder.module.relpath, lc.lineno), gets,
+                        "the mask reaches the added loss term" if gets else
+                        "under the 'mask' policy the marginal is restricted to the observed values, but `%s` is evaluated without the mask: %s (built in %s from the inputs of the call) reduces over all training points, so points whose observation is missing still contribute to the objective" % (
+                            " ".join(src(lc).split())[:50], cls.name, kfi.qualname), {"term_built_at": "%s:%d" % (kfi.module.relpath, kc.lineno)})
+    rep.floor("C16-9", "masked objective x data-sized kernel-built term", n, 1)
